@@ -448,12 +448,15 @@ func writeEvidence(o checkOpts, results []*FuncResult, all []*Oblig, nObl, nDis 
 	sort.Strings(tb)
 	tb = append([]string{"govc VC generator (this repository, /verif/cmd/govc)", "z3 5.1.0 / z3 4.8.12 / cvc5 1.0 (first unsat wins; thorough tier cross-checks)",
 		"Go semantics as encoded in DESIGN.md section 2.4 (int = 64 bit, sequential execution, typed memory)"}, tb...)
-	var as []string
+	as := []string{"sequential execution (no goroutine interleaving modelled)", "int/uint are 64 bit (GOARCH=amd64)", "typed memory: no unsafe aliasing between differently typed objects"}
 	for a := range assume {
 		as = append(as, a)
 	}
 	sort.Strings(as)
-	var knownNames, failedNames []string
+	knownNames, failedNames := []string{}, []string{}
+	if undecided == nil {
+		undecided = []string{}
+	}
 	for _, ob := range out.known {
 		knownNames = append(knownNames, ob.name)
 	}
